@@ -25,6 +25,22 @@ CHECKS = {
          "Exploration: generated isolation rule sets and hotspot concurrency rules (indices, keys, overrides, capacities) with build/exit interleavings; admit/reject decided both ways against an in-flight model, block type and triggered rule checked in the Err text and in the BlockError a custom StatSlot receives.",
          "Trusted: thresholds >= 1 as quantified; for hotspot batch n>1 both readings (entries vs +n) accepted between the two bounds.",
          "5/C05"),
+ "C03": ("proptest event histories (enter / complete ok|error|slow / advance) vs executable Closed/Open/Half-Open reference machine, listener log compared after every event",
+         "Exploration: generated rule parameters on the decision boundary and event histories; after every event the build() result, every breaker's current_state() and the complete listener log are compared with an independent state-machine model (window sums from an event list by definition), including probes rejected by another rule and two breakers on one resource.",
+         "Trusted: virtual clock; breaker order on a resource taken as observed; a blocked probe returns to Open without moving the retry time.",
+         "5/C03"),
+ "C06": ("proptest arrival histories; bound + state-set lazy reference bucket + two metamorphic re-runs (delete other values, replace override by plain rule)",
+         "Exploration: generated rule/override/arrival histories with gaps exactly at d-1, d, d+1 ms; the admitted-token bound of the statement is checked per value, rejections are judged against a reference bucket that is a lower bound of any conforming bucket, and cross-talk / override locality are decided by metamorphic re-execution on fresh resources at the same virtual instants.",
+         "Trusted: virtual clock; default capacity so values stay within capacity; a gap of exactly d may or may not refill (both reference states kept).",
+         "5/C06"),
+ "C07": ("proptest arrival histories vs integer-time pacer model, direct (perform_checking) and end-to-end (build + virtual sleep) drive modes",
+         "Exploration: generated rates/intervals/queue limits and arrivals placed just before/at/after the previously scheduled slot; spacing, queue bound, legitimacy of every rejection and the actual delay of the caller (virtual clock before/after build()) are checked for flow throttling and hotspot QPS throttling.",
+         "Trusted: virtual clock and virtual sleep; tolerance 2 ns (flow) / 1 ms (hotspot); wait exactly at the maximum accepted either way.",
+         "5/C07"),
+ "C13": ("proptest chains + exhaustive enumeration of all chains with <= 2 slots per kind; recorded call log judged against the contract",
+         "Exploration with an exhaustive sub-domain: every chain with up to 2 slots of each kind over order values {0,1,7} and every Pass/Blocked/Wait assignment is enumerated; larger chains (up to 4 per kind, ties, arbitrary insertion interleavings) are generated. The call log of recording slots decides ordering, blocked-iff, provenance of the error and the exactly-once notifications.",
+         "Trusted: mock check slots only return their result; an early stop right after a blocking slot is accepted.",
+         "5/C13"),
 }
 ALL = ["C%02d" % i for i in range(1, 21)]
 NOT_YET = "check not built yet in this round (planned, see DESIGN.md section 5)"
